@@ -30,6 +30,14 @@ def insertSorted (x : Nat) : List Nat → List Nat
   | [] => [x]
   | y :: ys => if x < y then x :: y :: ys else if x = y then y :: ys else y :: insertSorted x ys
 
+def list (s : String) : List String := if s == "_" then [] else s.splitOn ","
+
+/-- `<hex rule>,<hex rule>...|<position>,<position>...` (`_` = none): one `domain_set` plugin -/
+def setCfg? (s : String) : Option (List Bytes × List Nat) :=
+  match s.splitOn "|" with
+  | [rs, js] => do pure (← (list rs).mapM Hex.decode, ← (list js).mapM String.toNat?)
+  | _ => none
+
 /-- `mix <default kind> <rules> <names> <regexp truth table>` -> per name the
 set of values `Match` may return (`a|b`), or `none`; `error` if a rule is rejected. -/
 def handle : List String → String
@@ -51,6 +59,15 @@ def handle : List String → String
           | [] => "none"
           | vs => String.intercalate "|" (vs.map toString)))
     | _, _, _, _ => "bad-op"
+  | ["sets", cfgs, ns, tbl] =>
+    -- the plugins of one configuration in order -> per set one 0/1 per name; `error` if a set is rejected
+    match (items cfgs).mapM setCfg?, (items ns).mapM Hex.decode, (items tbl).mapM rePair? with
+    | some cfgs, some names, some table =>
+      let re : Bytes → Bytes → Bool := fun e n => table.any (fun p => p.1 == e && p.2 == n)
+      match (cfgs.mapM (fun c => setOfRules re c.1 c.2)).bind (buildSets []) with
+      | none => "error"
+      | some ms => String.intercalate ";" (ms.map (fun m => String.join (names.map (fun n => Hex.showBool (m n)))))
+    | _, _, _ => "bad-op"
   | ["scan", s] => match Hex.decode s with
     | some s => String.intercalate "," ((scan s).map Hex.encode)
     | none => "bad-op"
